@@ -146,7 +146,7 @@ func expectedFields(step *pipeline.CommandStep, penv map[string]string) []string
 func checkC06(c *run.Ctx) {
 	all, err := keys.All()
 	must(c, err)
-	n := c.N(2400, 40000)
+	n := c.N(2400, 400000)
 	c.Parallel("list", n, func(i int, r *rand.Rand) {
 		uid := &gen.UID{}
 		id := run.CaseID("list", i)
